@@ -31,6 +31,9 @@ class Fn(object):
         self.nodes = [None] * n
         for x in nodes:
             self.nodes[x['i']] = x
+            if x['k'] == 'offsetof' and 'path' in x:
+                # the unnamed union of DECLARE_REFERENCE is not a component
+                x['path'] = [c for c in x['path'] if c]
         self.blocks = {}
         for b in d.get('blocks', []):
             self.blocks[b['id']] = b
